@@ -16,7 +16,7 @@ JOYSTK LEFT$ LEN LET LINE LOCATE LOG MID$ NEXT NOT ON OR PALETTE PEEK PLAY POINT
 RETURN RGB RIGHT$ RND SET SGN SIN SOUND SQR STEP STOP STR$ STRING$ TAB TAN THEN TO TROFF TRON VAL VARPTR WIDTH XOR""".split(),
                   key=lambda w: -len(w))
 
-NUM = re.compile(r"(\d+\.?\d*|\.\d+)(E[+-]?\d+)?|\.")
+NUM = re.compile(r"(\d+\.?\d*|\.\d*)( *(?!ELSE)E *[+-]? *\d*)?")      # as the ROM reads a number: 1E, 1E+, . are numbers
 HEX = re.compile(r"& *H *([0-9A-F]+)")
 IDENT = re.compile(r"[A-Z][A-Z0-9]*\$?")
 OPS = ["<=", ">=", "<>", "=<", "=>", "><", "+", "-", "*", "/", "^", "=", "<", ">", "(", ")", ",", ";", ":", "@"]
@@ -35,7 +35,7 @@ def numtok(text):
     try:
         f = Fraction(text.replace(" ", ""))
     except (ValueError, ZeroDivisionError):
-        return tok("big", text)
+        return tok("big", text, s=text.encode("latin-1"))      # evaluated by the specification (TextVal)
     if abs(f.numerator) <= LIM * 4 and f.denominator <= LIM:
         return tok("num", text, f.numerator, f.denominator)
     return tok("big", text)
@@ -90,9 +90,9 @@ def lex_body(body):
             pos = m.end()
             continue
         m = NUM.match(body, pos)
-        if m and m.end() > pos:
-            toks.append(numtok(m.group(0)) if m.group(0) != "." else tok("num", ".", 0, 1))
-            pos = m.end()
+        if m and m.end() > pos and len(m.group(0).rstrip(" ")) > 0:
+            toks.append(numtok(m.group(0).rstrip(" ")))
+            pos = pos + len(m.group(0).rstrip(" "))
             continue
         op = next((o for o in OPS if body.startswith(o, pos)), None)
         if op:
